@@ -13,3 +13,4 @@ import AcryoVerif.Props.C12
 import AcryoVerif.Props.C13
 import AcryoVerif.Props.C01
 import AcryoVerif.Props.C11
+import AcryoVerif.Props.C03
